@@ -67,6 +67,86 @@ theorem good_err {α : Type} (buf : Buf) (pos : Nat) : Good (α := α) buf pos .
 theorem good_ok {α : Type} {buf : Buf} {pos p : Nat} (v : α) (h1 : pos < p) (h2 : p ≤ buf.size) :
     Good buf pos (.ok (v, p)) := Or.inr ⟨v, p, rfl, h1, h2⟩
 
+/-- `Good` with a fact about the value -/
+def GoodQ {α : Type} (Q : α → Prop) (buf : Buf) (pos : Nat) (r : Out (α × Nat)) : Prop :=
+  r = .err ∨ ∃ v p, r = .ok (v, p) ∧ pos < p ∧ p ≤ buf.size ∧ Q v
+
+theorem GoodQ.good {α : Type} {Q : α → Prop} {buf : Buf} {pos : Nat} {r : Out (α × Nat)} (h : GoodQ Q buf pos r) :
+    Good buf pos r := by
+  rcases h with h | ⟨v, p, h, h1, h2, _⟩
+  · exact Or.inl h
+  · exact Or.inr ⟨v, p, h, h1, h2⟩
+
+theorem GoodQ.mono {α : Type} {Q Q' : α → Prop} {buf : Buf} {pos pos' : Nat} {r : Out (α × Nat)}
+    (h : GoodQ Q buf pos' r) (hle : pos ≤ pos') (hq : ∀ v, Q v → Q' v) : GoodQ Q' buf pos r := by
+  rcases h with h | ⟨v, p, h, h1, h2, h3⟩
+  · exact Or.inl h
+  · exact Or.inr ⟨v, p, h, by omega, h2, hq v h3⟩
+
+theorem goodq_err {α : Type} (Q : α → Prop) (buf : Buf) (pos : Nat) : GoodQ Q buf pos .err := Or.inl rfl
+
+theorem goodq_ok {α : Type} {Q : α → Prop} {buf : Buf} {pos p : Nat} (v : α) (h1 : pos < p) (h2 : p ≤ buf.size)
+    (hq : Q v) : GoodQ Q buf pos (.ok (v, p)) := Or.inr ⟨v, p, rfl, h1, h2, hq⟩
+
+/-! ### how deep a value nests arrays and dictionaries -/
+
+mutual
+/-- nesting depth of containers in a value (a scalar is 0, `[]` is 1, `[[]]` is 2, …) -/
+def nest : Prim R → Nat
+  | .arr xs => nestList xs + 1
+  | .dict kvs => nestEntries kvs + 1
+  | .stream info _ => nestEntries info + 1
+  | .null => 0
+  | .int _ => 0
+  | .real _ => 0
+  | .bool _ => 0
+  | .str _ => 0
+  | .ref _ _ => 0
+  | .name _ => 0
+def nestList : List (Prim R) → Nat
+  | [] => 0
+  | x :: xs => max (nest x) (nestList xs)
+def nestEntries : List (List UInt8 × Prim R) → Nat
+  | [] => 0
+  | kv :: r => max (nest kv.2) (nestEntries r)
+end
+
+theorem nestList_le {xs : List (Prim R)} {n : Nat} (h : ∀ x ∈ xs, nest x ≤ n) : nestList xs ≤ n := by
+  induction xs with
+  | nil => simp [nestList]
+  | cons x xs ih =>
+    simp only [nestList]
+    have h1 := h x (by simp)
+    have h2 := ih (fun y hy => h y (by simp [hy]))
+    omega
+
+theorem nestEntries_le {d : Dict R} {n : Nat} (h : ∀ kv ∈ d, nest kv.2 ≤ n) : nestEntries d ≤ n := by
+  induction d with
+  | nil => simp [nestEntries]
+  | cons kv d ih =>
+    simp only [nestEntries]
+    have h1 := h kv (by simp)
+    have h2 := ih (fun y hy => h y (by simp [hy]))
+    omega
+
+theorem dictInsert_mem (d : Dict R) (k : List UInt8) (v : Prim R) :
+    ∀ kv ∈ dictInsert d k v, kv.2 = v ∨ kv ∈ d := by
+  induction d with
+  | nil => intro kv h; simp [dictInsert] at h; left; rw [h]
+  | cons e d ih =>
+    intro kv h
+    obtain ⟨k', v'⟩ := e
+    simp only [dictInsert] at h
+    split at h
+    · rcases List.mem_cons.1 h with rfl | h
+      · left; rfl
+      · right; simp [h]
+    · rcases List.mem_cons.1 h with rfl | h
+      · right; simp
+      · rcases ih kv h with h1 | h1
+        · left; exact h1
+        · right; simp [h1]
+
 /-! ### small pieces -/
 
 theorem check_cases (flags allowed : Nat) : check flags allowed = .err ∨ check flags allowed = .ok () := by
@@ -80,6 +160,12 @@ theorem ret_bind {α β : Type} {x : Out α} {f : α → Out β} (hx : Ret x) (h
 
 theorem good_bind {α β : Type} {buf : Buf} {pos : Nat} {x : Out α} {f : α → Out (β × Nat)} (hx : Ret x)
     (hf : ∀ a, x = .ok a → Good buf pos (f a)) : Good buf pos (x.bind f) := by
+  rcases hx with he | ⟨a, ha⟩
+  · left; simp [he]
+  · rw [ha]; simp only [Out.bind_ok]; exact hf a ha
+
+theorem goodq_bind {α β : Type} {Q : β → Prop} {buf : Buf} {pos : Nat} {x : Out α} {f : α → Out (β × Nat)} (hx : Ret x)
+    (hf : ∀ a, x = .ok a → GoodQ Q buf pos (f a)) : GoodQ Q buf pos (x.bind f) := by
   rcases hx with he | ⟨a, ha⟩
   · left; simp [he]
   · rw [ha]; simp only [Out.bind_ok]; exact hf a ha
@@ -111,14 +197,14 @@ theorem decryptStr_ret (env : Env R) (henv : EnvOk env) (ctx : Option (Nat × Na
     | some f => exact henv.2 f hd id.1 id.2 s
 
 /-- `parse_stream_object`: `next_stream`, the length (direct or through the resolver), `read_n`, `endstream` -/
-theorem parseStreamObject_good (env : Env R) (henv : EnvOk env) (buf : Buf) (hs : RealSize buf) (pos : Nat)
+theorem parseStreamObject_goodq (env : Env R) (henv : EnvOk env) (buf : Buf) (hs : RealSize buf) (pos : Nat)
     (dict : Dict R) (id : Nat × Nat) (h : pos ≤ buf.size) :
-    Good buf pos (parseStreamObject env buf pos dict id) := by
+    GoodQ (fun v => ∃ inner, v = .stream dict inner) buf pos (parseStreamObject env buf pos dict id) := by
   unfold parseStreamObject
   rcases nextStream_spec buf pos h with he | ⟨p1, hp1, h1, h2⟩
   · left; simp [he]
   · rw [hp1]; simp only [Out.bind_ok]
-    apply good_bind
+    apply goodq_bind
     · split
       · split
         · exact Or.inr ⟨_, rfl⟩
@@ -135,7 +221,12 @@ theorem parseStreamObject_good (env : Env R) (henv : EnvOk env) (buf : Buf) (hs 
       · rcases nextExpect_spec buf p2 kwEndstream h5 with he | ⟨p3, hp3, h7, h8⟩
         · left; simp [he]
         · rw [hp3]; simp only [Out.bind_ok]
-          exact good_ok _ (by omega) h8
+          exact goodq_ok _ (by omega) h8 ⟨_, rfl⟩
+
+theorem parseStreamObject_good (env : Env R) (henv : EnvOk env) (buf : Buf) (hs : RealSize buf) (pos : Nat)
+    (dict : Dict R) (id : Nat × Nat) (h : pos ≤ buf.size) :
+    Good buf pos (parseStreamObject env buf pos dict id) :=
+  (parseStreamObject_goodq env henv buf hs pos dict id h).good
 
 /-- the look-ahead for `gen R` never fails; the lexer ends at or behind `posBk` -/
 theorem refLookahead_spec (buf : Buf) (posBk : Nat) (h : posBk ≤ buf.size) :
@@ -153,10 +244,10 @@ theorem refLookahead_spec (buf : Buf) (posBk : Nat) (h : posBk ≤ buf.size) :
         cases hh; exact ⟨rfl, by omega⟩
     · exact ⟨none, w2.2, rfl, by omega, a3, fun _ _ hh => by cases hh⟩
 
-/-- the integer / reference branch: `err`, or a value with the cursor at or behind `posBk` -/
+/-- the integer / reference branch: `err`, or a scalar with the cursor at or behind `posBk` -/
 theorem parseIntOrRef_spec (buf : Buf) (posBk : Nat) (first : List UInt8) (flags : Nat) (h : posBk ≤ buf.size) :
-    Good buf (posBk - 1) (parseIntOrRef (R := R) buf posBk first flags) ∨
-    ∃ v, parseIntOrRef (R := R) buf posBk first flags = .ok (v, posBk) := by
+    GoodQ (fun v => nest v = 0) buf (posBk - 1) (parseIntOrRef (R := R) buf posBk first flags) ∨
+    ∃ v, parseIntOrRef (R := R) buf posBk first flags = .ok (v, posBk) ∧ nest v = 0 := by
   unfold parseIntOrRef
   rcases check_cases flags (Flags.integer ||| Flags.ref) with hc | hc
   · left; left; simp [hc]
@@ -169,7 +260,7 @@ theorem parseIntOrRef_spec (buf : Buf) (posBk : Nat) (first : List UInt8) (flags
               match parseI32 first with
               | some i => Out.ok ((.int i : Prim R), p)
               | none => .err) →
-        Good buf (posBk - 1) x ∨ ∃ v, x = .ok (v, posBk) := by
+        GoodQ (fun v => nest v = 0) buf (posBk - 1) x ∨ ∃ v, x = .ok (v, posBk) ∧ nest v = 0 := by
       intro x hx
       rcases check_cases flags Flags.integer with hc | hc
       · left; left; rw [hx]; simp [hc]
@@ -179,7 +270,7 @@ theorem parseIntOrRef_spec (buf : Buf) (posBk : Nat) (first : List UInt8) (flags
         rw [hmin] at hx
         cases hp : parseI32 first with
         | none => left; left; rw [hx, hp]
-        | some i => right; exact ⟨.int i, by rw [hx, hp]⟩
+        | some i => right; exact ⟨.int i, by rw [hx, hp], by simp [nest]⟩
     cases la with
     | none => exact asInt _ rfl
     | some ww =>
@@ -198,72 +289,84 @@ theorem parseIntOrRef_spec (buf : Buf) (posBk : Nat) (first : List UInt8) (flags
             | none => left; rfl
             | some g =>
               have := c3 w2 w3 rfl
-              exact good_ok _ (by omega) (by omega)
+              exact goodq_ok _ (by omega) (by omega) (by simp [nest])
       · exact asInt _ rfl
 
 /-! ### the mutual recursion -/
 
-/-- the four statements, for one amount of fuel -/
+/-- the four statements, for one amount of fuel; the value facts are the nesting bounds -/
 def TotalAt (env : Env R) (buf : Buf) (fuel : Nat) : Prop :=
   (∀ pos ctx flags depth, pos ≤ buf.size → 3 * (buf.size - pos) + 3 ≤ fuel →
-      Good buf pos (parseCtx env buf fuel pos ctx flags depth)) ∧
+      GoodQ (fun v => nest v ≤ depth) buf pos (parseCtx env buf fuel pos ctx flags depth)) ∧
   (∀ pos ctx flags depth, pos ≤ buf.size → 3 * (buf.size - pos) + 2 ≤ fuel →
-      Good buf pos (parseInner env buf fuel pos ctx flags depth)) ∧
-  (∀ pos ctx depth acc, pos ≤ buf.size → 3 * (buf.size - pos) + 4 ≤ fuel →
-      Good buf pos (parseArray env buf fuel pos ctx depth acc)) ∧
-  (∀ pos ctx depth acc, pos ≤ buf.size → 3 * (buf.size - pos) + 1 ≤ fuel →
-      Good buf pos (parseDict env buf fuel pos ctx depth acc))
+      GoodQ (fun v => nest v ≤ depth) buf pos (parseInner env buf fuel pos ctx flags depth)) ∧
+  (∀ pos ctx depth acc, pos ≤ buf.size → 3 * (buf.size - pos) + 4 ≤ fuel → (∀ e ∈ acc, nest e ≤ depth) →
+      GoodQ (fun v => nest v ≤ depth + 1) buf pos (parseArray env buf fuel pos ctx depth acc)) ∧
+  (∀ pos ctx depth acc, pos ≤ buf.size → 3 * (buf.size - pos) + 1 ≤ fuel → (∀ kv ∈ acc, nest kv.2 ≤ depth) →
+      GoodQ (fun d => ∀ kv ∈ d, nest kv.2 ≤ depth) buf pos (parseDict env buf fuel pos ctx depth acc))
 
 theorem parseCtx_step (env : Env R) (buf : Buf) (fuel : Nat) (ih : TotalAt env buf fuel)
     (pos : Nat) (ctx : Option (Nat × Nat)) (flags depth : Nat) (h : pos ≤ buf.size)
     (hf : 3 * (buf.size - pos) + 3 ≤ fuel + 1) :
-    Good buf pos (parseCtx env buf (fuel + 1) pos ctx flags depth) := by
+    GoodQ (fun v => nest v ≤ depth) buf pos (parseCtx env buf (fuel + 1) pos ctx flags depth) := by
   unfold parseCtx
-  rcases ih.2.1 pos ctx flags depth h (by omega) with he | ⟨v, p, hp, h1, h2⟩
+  rcases ih.2.1 pos ctx flags depth h (by omega) with he | ⟨v, p, hp, h1, h2, h3⟩
   · rw [he]; simp only []
     rw [setPos_spec buf pos pos h]; exact Or.inl rfl
-  · rw [hp]; exact good_ok v h1 h2
+  · rw [hp]; exact goodq_ok v h1 h2 h3
 
 theorem parseArray_step (env : Env R) (buf : Buf) (fuel : Nat) (ih : TotalAt env buf fuel)
     (pos : Nat) (ctx : Option (Nat × Nat)) (depth : Nat) (acc : List (Prim R)) (h : pos ≤ buf.size)
-    (hf : 3 * (buf.size - pos) + 4 ≤ fuel + 1) :
-    Good buf pos (parseArray env buf (fuel + 1) pos ctx depth acc) := by
+    (hf : 3 * (buf.size - pos) + 4 ≤ fuel + 1) (hacc : ∀ e ∈ acc, nest e ≤ depth) :
+    GoodQ (fun v => nest v ≤ depth + 1) buf pos (parseArray env buf (fuel + 1) pos ctx depth acc) := by
   unfold parseArray
   obtain ⟨pk, hpk, _, _, _⟩ := peek_spec buf pos h
   rw [hpk]; simp only [Out.bind_ok]
   split
   · rcases next_spec buf pos h with he | ⟨w, hw, a1, a2, a3⟩
     · left; simp [he]
-    · rw [hw]; simp only [Out.bind_ok]; exact good_ok _ (by omega) a3
-  · rcases ih.1 pos ctx Flags.any depth h (by omega) with he | ⟨v, p, hp, h1, h2⟩
+    · rw [hw]; simp only [Out.bind_ok]
+      refine goodq_ok _ (by omega) a3 ?_
+      simp only [nest]
+      have := nestList_le (xs := acc.reverse) (n := depth) (fun x hx => hacc x (by simpa using hx))
+      omega
+  · rcases ih.1 pos ctx Flags.any depth h (by omega) with he | ⟨v, p, hp, h1, h2, h3⟩
     · left; simp [he]
     · rw [hp]; simp only [Out.bind_ok]
-      exact (ih.2.2.1 p ctx depth (v :: acc) h2 (by omega)).mono (by omega)
+      exact (ih.2.2.1 p ctx depth (v :: acc) h2 (by omega)
+        (fun e he => by
+          rcases List.mem_cons.1 he with rfl | he
+          · exact h3
+          · exact hacc e he)).mono (by omega) (fun _ hq => hq)
 
 theorem parseDict_step (env : Env R) (buf : Buf) (fuel : Nat) (ih : TotalAt env buf fuel)
     (pos : Nat) (ctx : Option (Nat × Nat)) (depth : Nat) (acc : Dict R) (h : pos ≤ buf.size)
-    (hf : 3 * (buf.size - pos) + 1 ≤ fuel + 1) :
-    Good buf pos (parseDict env buf (fuel + 1) pos ctx depth acc) := by
+    (hf : 3 * (buf.size - pos) + 1 ≤ fuel + 1) (hacc : ∀ kv ∈ acc, nest kv.2 ≤ depth) :
+    GoodQ (fun d => ∀ kv ∈ d, nest kv.2 ≤ depth) buf pos (parseDict env buf (fuel + 1) pos ctx depth acc) := by
   unfold parseDict
   rcases next_spec buf pos h with he | ⟨w, hw, a1, a2, a3⟩
   · left; simp [he]
   · rw [hw]; simp only [Out.bind_ok]
     split
-    · apply good_bind (decodeName_ret _)
+    · apply goodq_bind (decodeName_ret _)
       intro key _
-      rcases ih.1 w.2 ctx Flags.any depth a3 (by omega) with he | ⟨v, p, hp, h1, h2⟩
+      rcases ih.1 w.2 ctx Flags.any depth a3 (by omega) with he | ⟨v, p, hp, h1, h2, h3⟩
       · left; simp [he]
       · rw [hp]; simp only [Out.bind_ok]
-        exact (ih.2.2.2 p ctx depth (dictInsert acc key v) h2 (by omega)).mono (by omega)
+        exact (ih.2.2.2 p ctx depth (dictInsert acc key v) h2 (by omega)
+          (fun kv hkv => by
+            rcases dictInsert_mem acc key v kv hkv with hv | hm
+            · rw [hv]; exact h3
+            · exact hacc kv hm)).mono (by omega) (fun _ hq => hq)
     · split
-      · exact good_ok _ (by omega) a3
-      · exact good_err _ _
+      · exact goodq_ok _ (by omega) a3 hacc
+      · exact goodq_err _ _ _
 
 theorem parseInner_step (env : Env R) (henv : EnvOk env) (buf : Buf) (hs : RealSize buf) (fuel : Nat)
     (ih : TotalAt env buf fuel)
     (pos : Nat) (ctx : Option (Nat × Nat)) (flags depth : Nat) (h : pos ≤ buf.size)
     (hf : 3 * (buf.size - pos) + 2 ≤ fuel + 1) :
-    Good buf pos (parseInner env buf (fuel + 1) pos ctx flags depth) := by
+    GoodQ (fun v => nest v ≤ depth) buf pos (parseInner env buf (fuel + 1) pos ctx flags depth) := by
   unfold parseInner
   rw [remainingStart_spec buf pos h]; simp only [Out.bind_ok]
   rcases next_spec buf pos h with he | ⟨w, hw, a1, a2, a3⟩
@@ -276,46 +379,59 @@ theorem parseInner_step (env : Env R) (henv : EnvOk env) (buf : Buf) (hs : RealS
       · left; simp [hc]
       · rw [hc]; simp only [Out.bind_ok]
         split
-        · exact good_err _ _
-        · rcases ih.2.2.2 w.2 ctx (depth - 1) [] a3 (by omega) with he | ⟨d, p, hp, h1, h2⟩
+        · exact goodq_err _ _ _
+        · rename_i hd0
+          have hdpos : depth - 1 + 1 = depth := by
+            have : depth ≠ 0 := by simpa using hd0
+            omega
+          rcases ih.2.2.2 w.2 ctx (depth - 1) [] a3 (by omega) (fun kv hkv => by cases hkv)
+            with he | ⟨d, p, hp, h1, h2, h3⟩
           · left; simp [he]
           · rw [hp]; simp only [Out.bind_ok]
             obtain ⟨pk, hpk, _, _, _⟩ := peek_spec buf p h2
             rw [hpk]; simp only [Out.bind_ok]
+            have hnd : nestEntries d + 1 ≤ depth := by have := nestEntries_le h3; omega
             split
             · split
-              · exact good_err _ _
-              · exact (parseStreamObject_good env henv buf hs p d _ h2).mono (by omega)
-            · exact good_ok _ (by omega) h2
+              · exact goodq_err _ _ _
+              · refine (parseStreamObject_goodq env henv buf hs p d _ h2).mono (by omega) ?_
+                rintro v ⟨inner, rfl⟩
+                simpa [nest] using hnd
+            · exact goodq_ok _ (by omega) h2 (by simpa [nest] using hnd)
     · split
       · -- integer or reference
-        rcases parseIntOrRef_spec (R := R) buf w.2 (slice buf w.1 w.2) flags a3 with hg | ⟨v, hv⟩
-        · exact hg.mono (by omega)
-        · rw [hv]; exact good_ok _ (by omega) a3
+        rcases parseIntOrRef_spec (R := R) buf w.2 (slice buf w.1 w.2) flags a3 with hg | ⟨v, hv, hn⟩
+        · exact hg.mono (by omega) (fun v hv => by omega)
+        · rw [hv]; exact goodq_ok _ (by omega) a3 (by omega)
       · split
         · -- real number
           rcases check_cases flags Flags.number with hc | hc
           · left; simp [hc]
           · rw [hc]; simp only [Out.bind_ok]
             split
-            · exact good_ok _ (by omega) a3
-            · exact good_err _ _
+            · exact goodq_ok _ (by omega) a3 (by simp [nest])
+            · exact goodq_err _ _ _
         · split
           · -- name
             rcases check_cases flags Flags.name with hc | hc
             · left; simp [hc]
             · rw [hc]; simp only [Out.bind_ok]
-              apply good_bind (decodeName_ret _)
+              apply goodq_bind (decodeName_ret _)
               intro s _
-              exact good_ok _ (by omega) a3
+              exact goodq_ok _ (by omega) a3 (by simp [nest])
           · split
             · -- array
               rcases check_cases flags Flags.array with hc | hc
               · left; simp [hc]
               · rw [hc]; simp only [Out.bind_ok]
                 split
-                · exact good_err _ _
-                · exact (ih.2.2.1 w.2 ctx (depth - 1) [] a3 (by omega)).mono (by omega)
+                · exact goodq_err _ _ _
+                · rename_i hd0
+                  have hdpos : depth - 1 + 1 = depth := by
+                    have : depth ≠ 0 := by simpa using hd0
+                    omega
+                  exact (ih.2.2.1 w.2 ctx (depth - 1) [] a3 (by omega) (fun e he => by cases he)).mono (by omega)
+                    (fun v hv => by omega)
             · split
               · -- literal string
                 rcases check_cases flags Flags.string with hc | hc
@@ -333,7 +449,7 @@ theorem parseInner_step (env : Env R) (henv : EnvOk env) (buf : Buf) (hs : RealS
                     rcases decryptStr_ret env henv ctx s with he | ⟨s', hs'⟩
                     · left; simp [he]
                     · rw [hs']; simp only [Out.bind_ok]
-                      exact good_ok _ (by omega) (by omega)
+                      exact goodq_ok _ (by omega) (by omega) (by simp [nest])
               · split
                 · -- hexadecimal string
                   rcases check_cases flags Flags.string with hc | hc
@@ -349,19 +465,19 @@ theorem parseInner_step (env : Env R) (henv : EnvOk env) (buf : Buf) (hs : RealS
                       rcases decryptStr_ret env henv ctx s with he | ⟨s', hs'⟩
                       · left; simp [he]
                       · rw [hs']; simp only [Out.bind_ok]
-                        exact good_ok _ (by omega) (by omega)
+                        exact goodq_ok _ (by omega) (by omega) (by simp [nest])
                 · split
                   · rcases check_cases flags Flags.bool with hc | hc
                     · left; simp [hc]
-                    · rw [hc]; simp only [Out.bind_ok]; exact good_ok _ (by omega) a3
+                    · rw [hc]; simp only [Out.bind_ok]; exact goodq_ok _ (by omega) a3 (by simp [nest])
                   · split
                     · rcases check_cases flags Flags.bool with hc | hc
                       · left; simp [hc]
-                      · rw [hc]; simp only [Out.bind_ok]; exact good_ok _ (by omega) a3
+                      · rw [hc]; simp only [Out.bind_ok]; exact goodq_ok _ (by omega) a3 (by simp [nest])
                     · split
                       · rcases check_cases flags Flags.null with hc | hc
                         · left; simp [hc]
-                        · rw [hc]; simp only [Out.bind_ok]; exact good_ok _ (by omega) a3
+                        · rw [hc]; simp only [Out.bind_ok]; exact goodq_ok _ (by omega) a3 (by simp [nest])
                       · -- unknown token: `read_n(50)` for the error message
                         obtain ⟨s, p, hr, _⟩ := readN_total buf w.2 50 a3
                         left; rw [hr]; rfl
@@ -372,22 +488,31 @@ theorem parse_total_aux (env : Env R) (henv : EnvOk env) (buf : Buf) (hs : RealS
   intro fuel
   induction fuel with
   | zero =>
-    refine ⟨?_, ?_, ?_, ?_⟩ <;> intro _ _ _ _ _ hf <;> omega
+    refine ⟨?_, ?_, ?_, ?_⟩
+    · intro _ _ _ _ _ hf; omega
+    · intro _ _ _ _ _ hf; omega
+    · intro _ _ _ _ _ hf; omega
+    · intro _ _ _ _ _ hf; omega
   | succ fuel ih =>
     exact ⟨fun pos ctx flags depth h hf => parseCtx_step env buf fuel ih pos ctx flags depth h hf,
       fun pos ctx flags depth h hf => parseInner_step env henv buf hs fuel ih pos ctx flags depth h hf,
-      fun pos ctx depth acc h hf => parseArray_step env buf fuel ih pos ctx depth acc h hf,
-      fun pos ctx depth acc h hf => parseDict_step env buf fuel ih pos ctx depth acc h hf⟩
+      fun pos ctx depth acc h hf hacc => parseArray_step env buf fuel ih pos ctx depth acc h hf hacc,
+      fun pos ctx depth acc h hf hacc => parseDict_step env buf fuel ih pos ctx depth acc h hf hacc⟩
 
 /-! ### the entry points -/
 
 theorem defaultFuel_enough (buf : Buf) (pos : Nat) : 3 * (buf.size - pos) + 4 ≤ defaultFuel buf := by
   unfold defaultFuel; omega
 
+theorem parseWithLexer_goodq (env : Env R) (henv : EnvOk env) (buf : Buf) (hs : RealSize buf) (fuel pos flags : Nat)
+    (h : pos ≤ buf.size) (hf : 3 * (buf.size - pos) + 3 ≤ fuel) :
+    GoodQ (fun v => nest v ≤ maxDepth) buf pos (parseWithLexer env buf fuel pos flags) :=
+  (parse_total_aux env henv buf hs fuel).1 pos none flags maxDepth h hf
+
 theorem parseWithLexer_good (env : Env R) (henv : EnvOk env) (buf : Buf) (hs : RealSize buf) (fuel pos flags : Nat)
     (h : pos ≤ buf.size) (hf : 3 * (buf.size - pos) + 3 ≤ fuel) :
     Good buf pos (parseWithLexer env buf fuel pos flags) :=
-  (parse_total_aux env henv buf hs fuel).1 pos none flags maxDepth h hf
+  (parseWithLexer_goodq env henv buf hs fuel pos flags h hf).good
 
 theorem parseObjHeader_good (buf : Buf) (pos : Nat) (h : pos ≤ buf.size) : Good buf pos (parseObjHeader buf pos) := by
   unfold parseObjHeader
@@ -412,7 +537,7 @@ theorem parseIndirectObject_good (env : Env R) (henv : EnvOk env) (buf : Buf) (h
   rcases parseObjHeader_good buf pos h with he | ⟨id, p, hp, h1, h2⟩
   · left; simp [he]
   · rw [hp]; simp only [Out.bind_ok]
-    rcases (parse_total_aux env henv buf hs fuel).1 p (some id) flags maxDepth h2 (by omega)
+    rcases ((parse_total_aux env henv buf hs fuel).1 p (some id) flags maxDepth h2 (by omega)).good
       with he | ⟨v, q, hq, q1, q2⟩
     · left; simp [he]
     · rw [hq]; simp only [Out.bind_ok]
@@ -434,8 +559,8 @@ theorem parseStream_good (env : Env R) (henv : EnvOk env) (buf : Buf) (hs : Real
   · left; simp [he]
   · rw [hw]; simp only [Out.bind_ok]
     split
-    · rcases (parse_total_aux env henv buf hs fuel).2.2.2 w.2 none maxDepth [] a3 (by omega)
-        with he | ⟨d, p, hp, h1, h2⟩
+    · rcases ((parse_total_aux env henv buf hs fuel).2.2.2 w.2 none maxDepth [] a3 (by omega)
+          (fun kv hkv => by cases hkv)).good with he | ⟨d, p, hp, h1, h2⟩
       · left; simp [he]
       · rw [hp]; simp only [Out.bind_ok]
         obtain ⟨pk, hpk, _, _, _⟩ := peek_spec buf p h2
